@@ -27,8 +27,9 @@ Verdict(r) ==
   ELSE IF r.op = "concat" /\ ~r.operands_changed /\ r.observed.k = "bytes"
           /\ KnownConcatPadding(r.bytes, r.inline, r.raw, r.other, r.observed.v) THEN "known:D6"
   ELSE "violation"
-ASSUME PrintT(<<"HEXVERDICT", ToJson([i \in 1..Len(Obs) |-> Verdict(Obs[i])])>>)
+\* (evaluated in the action, not in an ASSUME: TLC evaluates assumptions on the JVM's main thread, whose stack -Xss does not
+\* enlarge, and PrintHex of a 257-byte string is 257 levels of a non-tail recursion)
 VARIABLE x
 Init == x = 0
-Next == UNCHANGED x
+Next == x = 0 /\ x' = 1 /\ PrintT(<<"HEXVERDICT", ToJson([i \in 1..Len(Obs) |-> Verdict(Obs[i])])>>)
 =============================================================================
